@@ -242,7 +242,25 @@ pub fn run_one(name: &str, c: &Cfg) -> Option<Result<(), String>> {
 }
 
 /// `search <layer.what>` -> first failing configuration; `run <layer.what> <cfg json>` -> that configuration only
+/// C08: `(size as f32).sqrt() as usize` is the integer floor square root - by exhaustion over every size < 2^24
+/// (CBMC's sqrt model is not correctly rounded: it reports 3168^2 - 1, which does not reproduce natively)
+pub fn isqrt_floor(only: Option<usize>) -> Result<usize, (usize, usize)> {
+    let (lo, hi) = match only { Some(n) => (n, n + 1), None => (0usize, 1usize << 24) };
+    for size in lo..hi {
+        let r = (size as f32).sqrt() as usize;
+        if !(r * r <= size && size < (r + 1) * (r + 1)) { return Err((size, r)); }
+    }
+    Ok(hi - lo)
+}
+
 pub fn dispatch(cmd: &str, name: &str, arg: &str) -> Option<String> {
+    if name == "isqrt.floor" {
+        let only = if cmd == "run" { arg.split(|c: char| !c.is_ascii_digit()).find(|x| !x.is_empty()).and_then(|x| x.parse().ok()) } else { None };
+        return Some(match isqrt_floor(only) {
+            Ok(n) => format!("{{\"failed\":false,\"tried\":{},\"exhaustive\":true}}", n),
+            Err((size, r)) => format!("{{\"failed\":true,\"input\":{{\"size\":{}}},\"detail\":\"(size as f32).sqrt() as usize = {} is not the floor square root\"}}", size, r),
+        });
+    }
     if name.starts_with("connect.") { return dispatch_connect(cmd, name, arg); }
     if !["conv", "deconv", "pool"].iter().any(|p| name.starts_with(p)) { return None; }
     std::panic::set_hook(Box::new(|_| {}));
